@@ -115,10 +115,40 @@ def gen_train(rng, mtu, ovh, res):
     return ["rx " + hx(p) for p in pdus]
 
 
+def rand_maxtx(rng):
+    """a legal max_tx_size(): LL payload 27..251 plus the 2 header bytes"""
+    return rng.choice(MAXTX) if rng.random() < 0.5 else rng.randrange(29, 254)
+
+
+def gen_stalled_sdu(rng, mtu, ovh, res):
+    """an outgoing SDU that stalls mid-way because the radio runs out of transmit buffers (allocation
+    fails for k polls), with max_tx_size() changed (mostly shrunk, e.g. by a data length update) while
+    it is stalled, then resumed buffer by buffer"""
+    m0 = rng.choice([40, 64, 100, 253, rand_maxtx(rng)])
+    n = rng.randrange(max(1, mtu // 2), mtu + 1)
+    total = n + 4 + 2 + ovh
+    nfr = max(1, -(-total // m0))
+    ops = ["maxtx %d" % m0, "bufs %d" % rng.randrange(1, nfr + 1), "send " + hx(frame(rng, n))]
+    for _ in range(rng.randrange(1, 4)):                       # polls while stalled
+        ops.append(rng.choice(["pump 27", "pump 27", "take"]))
+    for _ in range(rng.randrange(1, 4)):                       # size changes while stalled / resuming
+        r = rng.random()
+        m = rng.randrange(29, m0 + 1) if r < 0.6 else (29 if r < 0.8 else rand_maxtx(rng))
+        ops.append("maxtx %d" % m)
+        ops.append(rng.choice(["pump 27", "take", "bufs 1", "bufs 1"]))
+        if rng.random() < 0.5:
+            ops += ["bufs 1", rng.choice(["pump 27", "take"])]
+    ops += ["bufs %d" % rng.choice([1, 2, 20]), rng.choice(["pump 27", "take"])]
+    res.count("send:stalled-then-max-tx-changed")
+    return ops
+
+
 def gen_session(rng, res, length, malformed=False):
     mtu, ovh = rng.choice(CONFIGS)
     maxtx = rng.choice(MAXTX)
     ops = ["reset %d %d %d" % (mtu, ovh, maxtx)]
+    if not malformed and rng.random() < 0.3:
+        ops += gen_stalled_sdu(rng, mtu, ovh, res)             # no free buffer yet: the SDU does stall
     while len(ops) < length:
         r = rng.random()
         if malformed:
@@ -161,10 +191,12 @@ def gen_session(rng, res, length, malformed=False):
             else:
                 res.count("send:wellformed")
             ops.append("send " + hx(f))
-        elif r < 0.88:
+        elif r < 0.86:
             ops.append("pump %d" % rng.choice([0, 27, 27, 251]))
+        elif r < 0.89:
+            ops += gen_stalled_sdu(rng, mtu, ovh, res)
         elif r < 0.93:
-            ops.append("maxtx %d" % rng.choice(MAXTX))
+            ops.append("maxtx %d" % rand_maxtx(rng))
         else:
             ops.append("llsend " + hx(pdu(3, bytes(rng.randrange(256) for _ in range(rng.randrange(1, 27))), ovh, rng)))
     return ops
@@ -240,7 +272,7 @@ def monitor(ops, outs):
         for p in pdus:
             t = p[0] & 3
             if len(p) > maxtx:
-                fail(k, "fragment-larger-than-max-tx", "PDU of %d bytes sent with max_tx_size %d" % (len(p), maxtx))
+                fail(k, "fragment-larger-than-max-tx", "PDU of %d bytes allocated and sent while max_tx_size() is %d" % (len(p), maxtx))
             if t == 3:
                 continue
             if sdu is None:
@@ -375,7 +407,8 @@ def run_c19(ctx, replay_path=None):
                 "targeted mutation: overlong / extra / missing continuation, restart, announced length > MTU, short start, LL control PDU "
                 "or unfragmented SDU mid-train, LLID 0, overlong start, header/length mismatch), consumption as the link layer does it "
                 "(take = next + free) or by bare next/free, and outgoing SDUs (length field =, <, > written size) sent with random "
-                "buffer availability / max_tx_size changes / interleaved LL PDUs; plus an unstructured stream (random PDUs); every session is "
+                "buffer availability / max_tx_size changes (any value 29..253, also while an SDU is stalled for lack of radio buffers: "
+                "30% of the sessions start with such a stalled SDU whose maximum shrinks before it resumes) / interleaved LL PDUs; plus an unstructured stream (random PDUs); every session is "
                 "run on the real ll_l2cap_sdu_buffer<> (MTU 24, 65, 100, 247) under ASan/UBSan and on the Lean model and compared line by "
                 "line (all outputs, receive_size_/receive_buffer_used_/transmit_size_/transmit_buffer_used_ included; callback count "
                 "projected out), and independently checked by a Python oracle of the property statement; distinct = distinct sessions "
@@ -440,6 +473,7 @@ PROPS = {
                   "BluetoeModel.L2capSdu.free_frees_what_was_handed_out",
                   "BluetoeModel.L2capSdu.fragments_concat_eq_sdu",
                   "BluetoeModel.L2capSdu.fragments_le_max_tx",
+                  "BluetoeModel.L2capSdu.fragment_le_max_tx_step",
                   "BluetoeModel.L2capSdu.transmit_in_bounds"],
         witnesses=["BluetoeModel.L2capSdu.Orig.reassembly_overflow_witness",
                    "BluetoeModel.L2capSdu.Orig.continuation_without_start_overflow_witness",
